@@ -431,6 +431,37 @@ def run(tier, seed):
             finally:
                 watch.uninstall()
                 env_on.uninstall()
+        # ---- contents that collide under a checksum or a digest (same length, same CRC-32 / same MD5, different bytes), decoded one after the other
+        # in one process by every kind of user-data decoder: each log is shown as a fresh interpreter shows it
+        env_on.install()
+        try:
+            import struct as _st
+            tail = b''.join(_st.pack('>HHI', 0x0100 + 7 * i_, i_ + 1, pte_) for i_, pte_ in enumerate([0x01040000, 0xE2082690, 0x010000DE]))
+            pairs_ = [('crc32', apel.crc_twins(rng, 128 + len(tail))), ('crc32', apel.crc_twins(rng, 64))]
+            if apel.md5_twins(tail):
+                pairs_ += [('md5', apel.md5_twins(tail)), ('md5', apel.md5_twins())]
+            for kind_, (a_, b_) in pairs_:
+                for creator_, comp_, sub_ in (('M', 0x2C00, 73), ('M', 0x2C00, 72), ('M', 0x2C00, 84), ('M', 0x2C00, 9), ('x', 0x1111, 9), ('x', 0x7777, 9), ('O', 0x2000, 9)):
+                    def one(payload_):
+                        s_ = ud_sec(rng, comp_, payload_)
+                        s_['hdr']['sub'] = sub_
+                        s_['hdr']['ver'] = 1
+                        p_ = apel.gen_pel(rng, max_sections=0)      # (not mk_pel: the shipped I/O-drawer parser module is wanted here)
+                        p_['ph']['creator'] = ord(creator_)
+                        p_['sections'] = [s_]
+                        return apel.enc_pel(p_)
+                    pa, pb = one(a_), one(b_)
+                    ra = apel.real_decode(pa, {'every': 1}, allow_plugins=True)
+                    rb = apel.real_decode(pb, {'every': 1}, allow_plugins=True)
+                    fb = fresh(fresh_py, pb, True)
+                    ck.case(key=('twins', kind_, creator_, comp_, sub_, len(a_)))
+                    ck.count('colliding contents (%s) decoded one after the other' % kind_)
+                    if fb != json.loads(json.dumps(rb[:3])):
+                        ck.fail('the result of a decode depends on what was decoded before it (contents of equal length and equal %s)' % kind_,
+                                {'op': 'history', 'history': [(pa.hex(), {'every': 1}, True), (pb.hex(), {'every': 1}, True)], 'step': 1,
+                                 'in_history': str(rb[:3])[:300], 'fresh': str(fb)[:300]}, 'history_dependence_collision')
+        finally:
+            env_on.uninstall()
         # ---- the component-id loader against the model on generated configuration directories
         env_on.install()
         try:
